@@ -12,6 +12,7 @@ import (
 	"archive/tar"
 	"bytes"
 	"compress/gzip"
+	"context"
 	"crypto/sha256"
 	"encoding/binary"
 	"encoding/hex"
@@ -39,20 +40,21 @@ import (
 // case description (JSON, replayable)
 
 type Ent struct {
-	Name   string            `json:"name"`
-	Type   string            `json:"type"` // reg dir symlink link char block fifo xglobal
-	Size   int               `json:"size,omitempty"`
-	Seed   uint64            `json:"seed,omitempty"`
-	Link   string            `json:"link,omitempty"`
-	Mode   int64             `json:"mode,omitempty"`
-	UID    int               `json:"uid,omitempty"`
-	GID    int               `json:"gid,omitempty"`
-	Uname  string            `json:"uname,omitempty"`
-	Gname  string            `json:"gname,omitempty"`
-	MTime  int64             `json:"mtime,omitempty"`
-	Xattrs map[string]string `json:"xattrs,omitempty"`
-	Major  int64             `json:"major,omitempty"`
-	Minor  int64             `json:"minor,omitempty"`
+	Name    string            `json:"name"`
+	Type    string            `json:"type"` // reg dir symlink link char block fifo xglobal
+	Size    int               `json:"size,omitempty"`
+	Seed    uint64            `json:"seed,omitempty"`
+	Link    string            `json:"link,omitempty"`
+	Mode    int64             `json:"mode,omitempty"`
+	UID     int               `json:"uid,omitempty"`
+	GID     int               `json:"gid,omitempty"`
+	Uname   string            `json:"uname,omitempty"`
+	Gname   string            `json:"gname,omitempty"`
+	MTime   int64             `json:"mtime,omitempty"`
+	MTimeNs int64             `json:"mtimens,omitempty"` // sub-second part (PAX)
+	Xattrs  map[string]string `json:"xattrs,omitempty"`
+	Major   int64             `json:"major,omitempty"`
+	Minor   int64             `json:"minor,omitempty"`
 }
 
 type Case struct {
@@ -68,6 +70,10 @@ type Case struct {
 	Trail    int      `json:"trail,omitempty"` // extra zero bytes after the end-of-archive marker of the input
 	Split    []int    `json:"split,omitempty"` // writer mode: entry indices at which a further AppendTar call starts
 	Ops      []Ent    `json:"ops"`             // the input tar (called ops so that the driver shrinks it)
+	// Build options beyond the sizes: WithGzipHelperFunc (an in-process gzip helper), WithContext (1 = Background,
+	// 2 = a cancellable context that is not cancelled)
+	Helper bool `json:"helper,omitempty"`
+	Ctx    int  `json:"ctx,omitempty"`
 	// Next: further builds made, one after the other, with the SAME compressor value (format and level of this case)
 	Next []Case `json:"next,omitempty"`
 }
@@ -143,8 +149,8 @@ func makeTarRange(c Case, lo, hi int) []byte {
 	for _, e := range c.Ops[lo:hi] {
 		h := &tar.Header{Name: e.Name, Typeflag: typeflag(e.Type), Mode: e.Mode, Uid: e.UID, Gid: e.GID,
 			Uname: e.Uname, Gname: e.Gname, Linkname: e.Link, Devmajor: e.Major, Devminor: e.Minor}
-		if e.MTime != 0 {
-			h.ModTime = time.Unix(e.MTime, 0)
+		if e.MTime != 0 || e.MTimeNs != 0 {
+			h.ModTime = time.Unix(e.MTime, e.MTimeNs)
 		}
 		if e.Type == "reg" {
 			h.Size = int64(e.Size)
@@ -334,6 +340,18 @@ func run(c Case, in []byte, calls [][]byte, cv *compVal) (res result) {
 		opts := []estargz.Option{estargz.WithChunkSize(c.Chunk), estargz.WithMinChunkSize(c.MinChunk), estargz.WithParallelism(c.Workers)}
 		if len(c.Prio) > 0 {
 			opts = append(opts, estargz.WithPrioritizedFiles(c.Prio))
+		}
+		if c.Helper {
+			// an external decompression helper, here the standard library in process
+			opts = append(opts, estargz.WithGzipHelperFunc(func(r io.Reader) (io.ReadCloser, error) { return gzip.NewReader(r) }))
+		}
+		switch c.Ctx {
+		case 1:
+			opts = append(opts, estargz.WithContext(context.Background()))
+		case 2:
+			ctx, cancel := context.WithCancel(context.Background())
+			defer cancel()
+			opts = append(opts, estargz.WithContext(ctx))
 		}
 		var missed []string
 		if c.Allow {
@@ -940,6 +958,38 @@ func execStep(c Case, cv *compVal) (o outcome) {
 	}
 	res := run(c, in, calls, cv)
 	count("mode." + c.Mode)
+	if c.Helper {
+		count("opt.helper." + c.Fmt)
+		if c.InComp == "gzip" {
+			count("opt.helper.gzipinput")
+		}
+	}
+	if c.Ctx > 0 {
+		count("opt.ctx")
+	}
+	{
+		seen := map[string]bool{}
+		for _, e := range c.Ops {
+			if e.MTime < 0 {
+				seen["attr.mtime.negative"] = true
+			}
+			if e.MTimeNs != 0 {
+				seen["attr.mtime.subsecond"] = true
+			}
+			if e.MTime >= 1<<33-1 {
+				seen["attr.mtime.far"] = true
+			}
+			if e.UID > 2097151 || e.GID > 2097151 {
+				seen["attr.id.huge"] = true
+			}
+			if e.Mode&0o7000 != 0 {
+				seen["attr.mode.special"] = true
+			}
+		}
+		for k := range seen {
+			count(k)
+		}
+	}
 	count("fmt." + c.Fmt)
 	count("incomp." + c.InComp)
 	if c.MinChunk > 0 {
@@ -1708,8 +1758,12 @@ func gen(r *hx.Rng) Case {
 	}
 	c.Level = []int{1, 1, 9, -1, 0, 5}[r.Intn(6)]
 	c.Workers = r.Pick(1, 2, 3, 2, 2, 1, 1, 1, 1, 1) // 0..9
+	if c.Mode == "build" {
+		c.Helper = r.Chance(1, 3)
+		c.Ctx = r.Pick(3, 1, 1)
+	}
 	c.InComp = "none"
-	if r.Chance(1, 4) {
+	if r.Chance(1, 4) || (c.Helper && r.Bool()) {
 		c.InComp = "gzip"
 	} else if c.Mode == "build" && r.Chance(1, 5) {
 		c.InComp = "zstd"
@@ -1724,16 +1778,34 @@ func gen(r *hx.Rng) Case {
 	n := r.Pick(1, 2, 3, 3, 3, 3, 2, 2, 2, 1, 1, 1, 1)
 	names := []string{"a", "b", "dir", "dir/c", "dir/sub/d", "e", "f.txt", "g", "h", "a/b.txt", strings.Repeat("long/", 25) + "name", "a"}
 	for i := 0; i < n; i++ {
-		e := Ent{Name: names[r.Intn(len(names))], Mode: []int64{0o644, 0o755, 0o600, 0o4755}[r.Intn(4)]}
+		e := Ent{Name: names[r.Intn(len(names))], Mode: []int64{0o644, 0o755, 0o600, 0o4755, 0o1777, 0o2755, 0o6711, 0o7777, 0, 0o1}[r.Pick(4, 4, 3, 2, 1, 1, 1, 1, 1, 1)]}
 		plain := r.Bool() // keep the path as is for every type: duplicates of mixed types
 		if r.Chance(1, 2) {
 			e.UID, e.GID = r.Intn(3)*1000, r.Intn(2)*100
 			if r.Bool() {
 				e.Uname, e.Gname = []string{"root", "alice"}[e.UID%2000/1000], []string{"wheel", "staff"}[e.GID/100]
 			}
+			if r.Chance(1, 5) {
+				// ids at the limits of the ustar octal fields and of int32
+				e.UID = []int{2097151, 2097152, 1<<31 - 1, 65534}[r.Intn(4)]
+				e.GID = []int{0, 2097151, 2097152, 1<<31 - 1}[r.Intn(4)]
+			}
 		}
-		if r.Chance(2, 3) {
+		switch r.Pick(3, 10, 2, 2, 1, 1) {
+		case 1:
 			e.MTime = int64(1_600_000_000 + r.Intn(1000))
+		case 2: // before / at the epoch
+			e.MTime = []int64{-1, -86400 * 365, -2208988800, 1, -1}[r.Intn(5)]
+			if r.Chance(1, 3) {
+				e.MTimeNs = 250000000
+			}
+		case 3: // sub-second (rounded in the TOC), incl. the fractions that round up and the first second
+			e.MTime = []int64{1_600_000_000, 0, 1, 1_599_999_999}[r.Intn(4)]
+			e.MTimeNs = []int64{500000000, 499999999, 999999999, 1}[r.Intn(4)]
+		case 4: // beyond the 11 octal digits of ustar
+			e.MTime = []int64{1 << 33, 1<<33 - 1, 253402300799, 4102444800}[r.Intn(4)]
+		case 5:
+			e.MTime = 1 << 31
 		}
 		switch r.Pick(12, 3, 2, 2, 1, 1, 1) {
 		case 0:
@@ -1781,13 +1853,13 @@ func gen(r *hx.Rng) Case {
 			}
 		case 4:
 			e.Type = "char"
-			e.Major, e.Minor = int64(r.Intn(5)), int64(r.Intn(300))
+			e.Major, e.Minor = []int64{0, 1, 4, 255, 256, 2097151}[r.Intn(6)], []int64{0, 5, 255, 256, 1048575, 2097151}[r.Intn(6)]
 			if !plain {
 				e.Name += "c"
 			}
 		case 5:
 			e.Type = "block"
-			e.Major, e.Minor = int64(r.Intn(300)), int64(r.Intn(5))
+			e.Major, e.Minor = []int64{0, 8, 259, 4095, 2097151}[r.Intn(5)], []int64{0, 1, 16, 2097151}[r.Intn(4)]
 			if !plain {
 				e.Name += "b"
 			}
@@ -1959,6 +2031,22 @@ func main() {
 			reg("/p", 30), reg("//"+tocName, 40), reg("r", 1500), reg("./q", 513), reg("../"+tocName, 50), reg("/"+prefetchLM, 1)}},
 		{Mode: "build", Fmt: "gzip", Chunk: 1000, MinChunk: 2000, Level: 1, Workers: 2, InComp: "none", Ops: []Ent{reg("dir/sub/d", 1200), reg("dir//sub/d", 10), reg("dir/sub/./d", 2100), reg("e", 5)}},
 		{Mode: "writer", Fmt: "gzip", Chunk: 100, Level: 1, InComp: "none", Ops: []Ent{reg("a", 10), reg("./a", 120), reg("/a", 0)}},
+		// entry attributes at their boundaries (pre-1970, sub-second and far-future mtime, huge ids, special mode bits,
+		// large device numbers), through every path
+		{Mode: "build", Fmt: "gzip", Chunk: 100, Level: 1, Workers: 2, InComp: "none", Ops: []Ent{
+			{Name: "old", Type: "reg", Size: 120, Seed: 5, Mode: 0o4755, MTime: -1}, {Name: "older/", Type: "dir", Mode: 0o1777, MTime: -2208988800},
+			{Name: "half", Type: "reg", Size: 3, Seed: 6, Mode: 0o644, MTime: 1600000000, MTimeNs: 500000000, UID: 2097152, GID: 1<<31 - 1},
+			{Name: "future", Type: "symlink", Link: "old", Mode: 0o777, MTime: 1 << 33}, {Name: "first", Type: "reg", Size: 0, Mode: 0, MTime: 1},
+			{Name: "dev", Type: "block", Mode: 0o660, Major: 2097151, Minor: 2097151, MTime: 253402300799}}},
+		{Mode: "writer", Fmt: "zstd", Chunk: 64, InComp: "gzip", Ops: []Ent{{Name: "neg", Type: "reg", Size: 70, Seed: 7, Mode: 0o6711, MTime: -86400, MTimeNs: 250000000, UID: 65534, GID: 2097151},
+			{Name: "almost", Type: "reg", Size: 1, Seed: 8, Mode: 0o2755, MTime: 0, MTimeNs: 999999999}}},
+		{Mode: "lossless", Fmt: "ext", Chunk: 512, Level: 1, InComp: "none", Ops: []Ent{{Name: "neg", Type: "fifo", Mode: 0o600, MTime: -1}, {Name: "c", Type: "char", Mode: 0o620, Major: 4, Minor: 256, MTime: 1<<33 - 1}}},
+		// every Build option crossed with every compression: in-process gzip helper, contexts
+		{Mode: "build", Fmt: "zstd", Chunk: 100, Workers: 2, InComp: "gzip", Helper: true, Ctx: 1, Ops: []Ent{reg("a", 250), reg("b", 0)}},
+		{Mode: "build", Fmt: "zstd", Chunk: 100, MinChunk: 300, Workers: 1, InComp: "none", Helper: true, Ops: []Ent{reg("a", 150), reg("b", 150)}},
+		{Mode: "build", Fmt: "ext", Chunk: 64, Level: 1, Workers: 3, InComp: "gzip", Helper: true, Ctx: 2, Ops: []Ent{reg("a", 130)}},
+		{Mode: "build", Fmt: "gzip", Chunk: 64, Level: 9, Workers: 3, InComp: "gzip", Helper: true, Ops: []Ent{reg("a", 130), reg("b", 64)}},
+		{Mode: "build", Fmt: "gzip", Chunk: 1000, MinChunk: 50, Level: 1, Workers: 2, InComp: "zstd", Helper: true, Ctx: 2, Prio: []string{"b"}, Ops: []Ent{reg("a", 130), reg("b", 64)}},
 		// one compressor VALUE used for several builds of different tars (external TOC: WriteTOCTo must give the TOC of the last build)
 		{Mode: "build", Fmt: "ext", Chunk: 100, Level: 1, Workers: 2, InComp: "none", Ops: []Ent{reg("first/a", 250), reg("first/b", 10)},
 			Next: []Case{{Mode: "build", Chunk: 64, Workers: 3, InComp: "none", Ops: []Ent{reg("second/x.txt", 300), reg("second/y.txt", 1), reg("second/z.txt", 129)}},
